@@ -414,6 +414,10 @@ def _main(prop, args, seed, t0):
         "wall_s": round(time.time() - t0, 2),
         "violations": len(new_viol) + (1 if (rc == 1 and not new_viol) else 0),
     }
+    if obligations < 1 or discharged < 1:
+        # no theorem was (re)checked in this run: do not present proof-level counts
+        cov = ev["coverage"]
+        cov["proof_status"] = {"obligations": cov.pop("obligations"), "discharged": cov.pop("discharged")}
     (ROOT / "evidence").mkdir(exist_ok=True)
     (ROOT / "evidence" / f"{prop}.json").write_text(json.dumps(ev, indent=1, default=str))
     for ln in out_lines:
